@@ -58,7 +58,39 @@ def handleParse (args : List String) : String :=
     | _, _, _ => "BADREQ"
   | _ => "BADREQ"
 
+def parseArgs (args : List String) : Option (Parser.FileSys × String) :=
+  match args with
+  | mainHex :: exeHex :: rest =>
+    let rec files (xs : List String) (acc : List (String × Bytes × String)) : Option (List (String × Bytes × String)) :=
+      match xs with
+      | [] => some acc.reverse
+      | p :: c :: h :: more =>
+        match bytesOfHex p, bytesOfHex c with
+        | some pb, some cb => files more ((bytesStr pb, cb, h) :: acc)
+        | _, _ => none
+      | _ => none
+    match bytesOfHex mainHex, bytesOfHex exeHex, files rest [] with
+    | some m, some e, some fl => some ({ files := fl, exeDir := bytesStr e }, bytesStr m)
+    | _, _, _ => none
+  | _ => none
+
+/-- FULLBASH: the whole model pipeline, source files -> bash script -/
+def handleFullBash (args : List String) : String :=
+  match parseArgs args with
+  | none => "BADREQ"
+  | some (fs, m) =>
+    match Parser.parse fs m with
+    | .ok p _ =>
+      match Bash.emitBash p.body with
+      | .ok s => "OK " ++ hexOfString s
+      | .error _ => "ERR"
+      | .panic _ => "PANIC"
+    | .error => "ERR"
+    | .panic => "PANIC"
+    | .diverge => "DIVERGE"
+
 def handle (line : String) : String :=
+  if line.startsWith "FULLBASH " then handleFullBash ((line.drop 9).toString.splitOn " ") else
   if line.startsWith "PARSE " then handleParse ((line.drop 6).toString.splitOn " ") else
   if line.startsWith "BASH " then handleBash (line.drop 5).toString else
   match line.splitOn " " with
